@@ -16,7 +16,7 @@
    C01-F1's input class; C01_cb_oklike_refuted shows the full statement fails without it. *)
 From Coq Require Import List Bool Ascii Arith NArith.
 From TxVerif Require Import Lib.Bytes Spec.Ctl Model.CtlTypes Model.Framing Model.CtlProto
-  Proofs.FramingProofs Proofs.CtlParse Proofs.CtlText Proofs.CtlItem Proofs.CtlRest.
+  Proofs.FramingProofs Proofs.CtlParse Proofs.CtlText Proofs.CtlItem Proofs.CtlRest Proofs.CtlFifo.
 Import ListNotations.
 
 Theorem C01_framing_segmentation_independent : forall cs1 cs2,
@@ -73,6 +73,17 @@ Theorem C01_next_command_is_queue_head : forall s c q,
   maybe_issue1 s = (upd_q s (Some c) q, [Wrote (crlf (ctext (cl c)))], true).
 Proof. exact maybe_issue_head. Qed.
 Print Assumptions C01_next_command_is_queue_head.
+
+(* session level, unbounded: any number of plain commands submitted up front, then any number
+   (not more) of well-formed replies in any wire form: the trace is exactly one write, then for
+   each reply in order: the resolution of the oldest unanswered command with that reply's outcome,
+   followed by the write of the next command (answers: see Proofs/CtlFifo.v) *)
+Theorem C01_fifo_batch : forall lbehs c1 cs items,
+  forallb plain (c1 :: cs) = true -> forallb is_reply items = true -> (length items <= S (length cs))%nat ->
+  concat (run lbehs init (map OSubmit (c1 :: cs) ++ map (fun i => ORecv (render i)) items))
+  = Wrote (crlf (ctext (cl c1))) :: answers c1 cs items.
+Proof. exact fifo_batch. Qed.
+Print Assumptions C01_fifo_batch.
 
 (* non-vacuity: a two-command session with a data block whose lines look like status lines *)
 Example C01_nonvacuous :
